@@ -460,3 +460,25 @@ def spelling_variants():
             for fn, mk in forms:
                 for vn, vt in variants:
                     yield f'{fn}/{p.name}->{tn}/{vn}', mk(p.text), mk(vt)
+
+
+# ------------------------------------------------- builtins: arity and user overloads
+def builtin_cases():
+    """every builtin called with too few / too many arguments (rejected), and user-defined overloads of builtin names with
+    signatures the library does not have (accepted, and distinct from the builtins).  yields (tag, source, must_accept)"""
+    bad_calls = ['write();', 'write(1, 2);', 'writeln(1, 2);', 'writeln(1, 2, 3);', 'sleep();', 'sleep(1, 2);', 'debug(1);', 'progress(1);', 'all_is_win(1);',
+                 'all_is_broken(1, 2);', 'try { !is_defeat(1); } undo { }', 'try { !truth_is_defeat(); } undo { }', 'try { !truth_is_defeat(true, false); } undo { }',
+                 'write(ia, 1);', 'writeln(sv, sv);']
+    for c in bad_calls:
+        yield f'builtins/arity/{c}', program('\n    ' + c), False
+    good = [
+        ('own_write_no_args', 'empty write() { show("mine"); }\n', 'write(); write(1);'),
+        ('own_write_two_args', 'empty write(int a, int b) { write(a); write(b); }\n', 'write(1, 2); write(3);'),
+        ('own_writeln_pair', "empty writeln(string a, string b) { write(a); write(' '); writeln(b); }\n", 'writeln("a", "b"); writeln("c"); writeln();'),
+        ('own_sleep_no_args', 'empty sleep() { sleep(1); }\n', 'sleep(); sleep(2);'),
+        ('own_debug_with_arg', 'empty debug(int k) { write(k); debug(); }\n', 'debug(5); debug();'),
+        ('own_all_is_win_with_arg', 'empty all_is_win(string why) { write(why); }\n', 'all_is_win("not yet"); write(1);'),
+        ('own_write_of_int_array', 'empty write(const int[] a) { for (int i = 0; i < a.length; i += 1) { write(a[i]); } }\n', 'write(ia); write(cia); write(ba);'),
+    ]
+    for tag, extra, body in good:
+        yield f'builtins/overload/{tag}', program('\n    ' + body, extra), True
